@@ -287,8 +287,9 @@ def judge_c09(spec, gs, tbs, inputs, diags, dumps, maps, tdiffs, byk, jobs, info
                 if not ex.ok: out['distinct'].append(common.sha(g.key(), data)[:12])
                 if r.stream != ex.stream:
                     viol(out, g, data, mode, '%s input: stream text %r, expected %r' % (kind, r.stream[:200], ex.stream[:200]), observed=r.stream, expected=ex.stream)
-                # (with regex terms the longest-match lexer has to read until its automaton dies, possibly well past the lexeme: the bound below is exact for char/string terms only)
-                if mode == 4 and kind == 'syntax' and ex.res.errors and not any(t.kind == 'r' for t in g.terms):
+                # (with string or regex terms the longest-match lexer has to read until its automaton dies, possibly well past the lexeme it falls back to:
+                #  the bound below is exact for grammars whose terms are all single characters)
+                if mode == 4 and kind == 'syntax' and ex.res.errors and all(t.kind == 'c' for t in g.terms):
                     p = ex.res.errors[0]
                     if p < len(ex.lex.toks):
                         limit = ex.lex.toks[p][1] + ex.lex.toks[p][2]      # one look-ahead byte after the offending lexeme
